@@ -99,7 +99,17 @@ def run(rep, tier, seed, proof_ok):
                 "reordering, non-accepted code, revert to an earlier version, restart, in-process variable change, entry-style switch}} "
                 "against a local store (1 in 4: memory store, single process); every call is run by the real dds, by a dds-free "
                 "reference run of the same files and by the Coq model (dds semantics and plain semantics); distinct = distinct history; "
-                "non-trivial = at least one call served a kept node from the store and at least one edit re-executed something")
+                "non-trivial = at least one call served a kept node from the store and at least one edit re-executed something; "
+                f"NAMES dimension (c01_names.py): {10 if tier == 'quick' else 72} further generated pipelines whose module variables, functions, classes and "
+                "parameters are consistently renamed (all versions of a history) to names of Python builtins (max, format, type, id, ...), "
+                "soft keywords / keyword look-alikes, names of dds' own API and modules, names of importable modules / of the package / of "
+                "sibling modules, underscore and dunder-like names, single letters, unicode identifiers (pairs differing by an accent), case "
+                "variants, and names shared between a variable and a parameter of another function / a function of another module / a "
+                "variable of another module (one class is the focus of each history in turn); the history edits what was renamed (value of "
+                "a renamed tracked variable in the file or in the running process, body of a renamed function, literal bound to a renamed "
+                "parameter), reverts and restarts; same three-way comparison (1 in 5 without the model: keep callees named like builtins); "
+                "plus 12 hand-written functions over settings named max / format / type / _ / unicode / keep / json edited 1 -> 2 -> 1 "
+                "between processes, compared with calling the function plainly")
     rep.assumptions += ["generated programs are in the supported subset W1-W8 of DESIGN.md 4.2",
                         "SHA-256 idealisation of DESIGN.md 4.4 for the theorems about signatures"]
     jobs = [(seed * 100000 + i, n_steps, "local") for i in range(n_hist)]
@@ -125,6 +135,8 @@ def run(rep, tier, seed, proof_ok):
         rep.sample(res["sample"], cap=3)
     rep.extra["input_distribution"] = {"histories": len(results), "steps_by_kind": kinds,
                                        "actions": sum(r.get("n_actions", 0) for r in results)}
+    import c01_names
+    c01_names.run(rep, tier, seed, proof_ok)
     import c01_targeted
     c01_targeted.run(rep, tier, seed, proof_ok)
     import c01_syntax
@@ -133,6 +145,9 @@ def run(rep, tier, seed, proof_ok):
 
 def replay(path):
     r = json.load(open(path))["replay"]
+    if "module_template" in r:      # hand-written files of the names dimension
+        import c01_names
+        return c01_names.replay_raw(r)
     events = [tuple(e) for e in r["events"]]
     for e in events:
         if e[0] == "prog":
@@ -142,7 +157,7 @@ def replay(path):
                     for st in f["stmts"]:
                         if "callee" in st:
                             st["callee"] = tuple(st["callee"])
-    recs = hist.run_history(events)
+    recs = hist.run_history(events, run_model=r.get("run_model", True))
     bad = False
     for i, rec in enumerate(recs):
         if rec["act"]["a"] == "setvar":
